@@ -58,6 +58,8 @@ def compose(numeral, unit, space_idx):
 def check_valid(numeral, unit, space_idx):
     plot_utils = _lib()
     text = compose(numeral, unit, space_idx)
+    core.rejected(plot_utils.unitsToUserUnits, 12.5, "wide")
+    core.rejected(plot_utils.getLength, None, "width", 5)
     value = F(Decimal(numeral))
     if abs(value) > F(10) ** 300:
         return []
